@@ -85,6 +85,18 @@ pub fn oracle_for(prop: &str) -> Option<OracleFnPtr> {
         "C02" => step_c02,
         "C03" => step_c03,
         "C10" => step_c10,
+        "C04" => step_c04,
+        "C05" => step_c05,
+        "C06" => step_c06,
+        "C07" => step_c07,
+        "C08" => step_c08,
+        "C11" => step_c11,
+        "C12" => step_c12,
+        "C15" => step_c15,
+        "C16" => step_c16,
+        "C20" => crate::props::adminprops::oracle_c20(),
+        "C14" => crate::props::adminprops::oracle_c14(),
+        "C17" => step_c17_eng,
         _ => return None,
     })
 }
@@ -298,5 +310,846 @@ pub fn run_c10(tier: Tier) -> i32 {
         }
     }
     run_exps(&mut run, step_c10, exps, |_| {});
+    run.finish()
+}
+
+// ------------------------------------------------------------------------------------------ C04
+fn step_c04(m: &EngModel, w: &mut World, s: &EngSt, a: &Act, out: &mut StepOut) -> Option<EngSt> {
+    let so = m.observe_step(w, s, a, out);
+    oracle_c04(w, &so, out);
+    next(&so)
+}
+
+fn seed_two_fundings() -> Vec<Act> {
+    vec![
+        Act::open("alice", true, SIZE_M.0, SIZE_M.1),
+        Act::open("bob", false, SIZE_S.0, SIZE_S.1),
+        Act::Px { price: 8 * D },
+        Act::blk(3900),
+        Act::fund(),
+        Act::Px { price: 12_500_000 },
+        Act::blk(3900),
+        Act::fund(),
+    ]
+}
+
+pub fn run_c04(tier: Tier) -> i32 {
+    let mut run = Run::new("C04", tier.clone());
+    run.rule = "every sequence over the alphabet up to the depth bound from each seed (incl. two fundings of opposite sign, vault drained); non-trivial = a ClosePosition that succeeded, or a trader transaction that lowered the insurance fund".into();
+    run.nontrivial = vec!["c04:whole-close-ok".into(), "c04:partial-close-ok".into(), "c04:trader-tx-lowering-insurance-fund".into(), "c04:close-rejected-negative-equity".into()];
+    let alpha = StdAlpha::basic(&T2).acts();
+    let seeds = vec![vec![], seed_liquidatable(), seed_two_fundings(), seed_vault_drained()];
+    let mut exps = vec![];
+    match tier {
+        Tier::Quick => {
+            exps.push(Exp::new("base", cfg_with(true, true, 0), alpha.clone(), seeds.clone(), 3));
+            exps.push(Exp::new("base", cfg_with(false, false, 0), alpha.clone(), seeds.clone(), 3));
+        }
+        Tier::Thorough => {
+            for cw20 in [true, false] {
+                for fees in [false, true] {
+                    exps.push(Exp::new("base", cfg_with(cw20, fees, 0), alpha.clone(), seeds.clone(), 4));
+                }
+            }
+            // partial-close path: fluctuation limit on, partial ratio 25%
+            let mut c = cfg_with(true, true, 250_000);
+            c.fluct = 50_000;
+            exps.push(Exp::new("partial-close", c, alpha.clone(), seeds.clone(), 4));
+        }
+    }
+    run_exps(&mut run, step_c04, exps, |_| {});
+    run.finish()
+}
+
+// ------------------------------------------------------------------------------------------ C05
+fn step_c05(m: &EngModel, w: &mut World, s: &EngSt, a: &Act, out: &mut StepOut) -> Option<EngSt> {
+    let so = m.observe_step(w, s, a, out);
+    oracle_c05(w, &so, out);
+    next(&so)
+}
+
+fn alpha_c05(w: &mut World, s: &EngSt) -> Vec<Act> {
+    w.restore(&s.snap);
+    let imr = w.cfg.imr;
+    let max_lev = D * D / imr; // 1/initial ratio
+    let mut acts = vec![];
+    for t in T2 {
+        for buy in [true, false] {
+            for (m, l) in [
+                (60 * D, max_lev),
+                (7_000_003, 2_500_000),
+                (20 * D, max_lev + 1),
+                (20 * D, D - 1),
+                (1, D),
+            ] {
+                acts.push(Act::Open { t: t.into(), v: 0, buy, margin: m, lev: l, limit: 0 });
+            }
+        }
+        acts.push(Act::close(t));
+        acts.push(Act::Dep { t: t.into(), v: 0, amt: 5 * D + 1 });
+        let to = observe_trader(w, 0, t);
+        if let Some(p) = &to.pos {
+            let vo = observe(w, &[]).vamms.remove(0);
+            let mut amts = vec![1u128, p.margin.u128(), p.margin.u128() + 1];
+            if let Some(fc) = ref_free_collateral(&to, &vo, imr) {
+                if fc > 0 {
+                    amts.push(fc as u128);
+                    amts.push(fc as u128 + 1);
+                }
+            }
+            amts.sort();
+            amts.dedup();
+            for a in amts {
+                if a > 0 {
+                    acts.push(Act::Wd { t: t.into(), v: 0, amt: a });
+                }
+            }
+        } else {
+            acts.push(Act::Wd { t: t.into(), v: 0, amt: 3 * D });
+        }
+    }
+    acts.push(Act::fund());
+    for b in [15, 1200, 3900] {
+        acts.push(Act::blk(b));
+    }
+    acts.push(Act::Px { price: 8 * D });
+    acts
+}
+
+pub fn run_c05(tier: Tier) -> i32 {
+    let mut run = Run::new("C05", tier.clone());
+    run.rule = "every sequence over a state-dependent alphabet (leverage at, just inside and just outside [1, 1/initial]; withdrawals of 1, free collateral, free collateral+1, margin, margin+1) up to the depth bound; non-trivial = successful open leaving a position, successful withdraw/deposit, rejected out-of-range leverage".into();
+    run.nontrivial = vec!["c05:open-ok-with-position".into(), "c05:withdraw-ok".into(), "c05:deposit-ok".into(), "c05:open-rejected-leverage".into(), "c05:withdraw-rejected-bad-debt".into()];
+    let mk = |cw20: bool, imr: u128, mmr: u128, fees: bool| {
+        let mut c = cfg_with(cw20, fees, 0);
+        c.imr = imr;
+        c.mmr = mmr;
+        c
+    };
+    let seeds = vec![vec![], seed_funded(), seed_liquidatable()];
+    let mut exps = vec![];
+    let mut push = |c: Cfg, d: usize| {
+        exps.push(Exp { name: "leverage/withdraw boundaries".into(), cfg: c, traders: T2.to_vec(), seeds: seeds.clone(), alpha: Alpha::Dyn(alpha_c05), depth: d, init_mon: Value::Null });
+    };
+    match tier {
+        Tier::Quick => {
+            push(mk(true, 100_000, 62_500, false), 3);
+            push(mk(false, 300_000, 62_500, true), 2);
+        }
+        Tier::Thorough => {
+            for cw20 in [true, false] {
+                push(mk(cw20, 100_000, 62_500, false), 4);
+                push(mk(cw20, 300_000, 62_500, true), 4);
+                push(mk(cw20, 50_000, 50_000, true), 3);
+            }
+        }
+    }
+    run_exps(&mut run, step_c05, exps, |_| {});
+    run.finish()
+}
+
+// ------------------------------------------------------------------------------------------ C06 / C07
+fn step_c06(m: &EngModel, w: &mut World, s: &EngSt, a: &Act, out: &mut StepOut) -> Option<EngSt> {
+    let so = m.observe_step(w, s, a, out);
+    oracle_c06_c07(w, &so, out, true, false);
+    next(&so)
+}
+fn step_c07(m: &EngModel, w: &mut World, s: &EngSt, a: &Act, out: &mut StepOut) -> Option<EngSt> {
+    let so = m.observe_step(w, s, a, out);
+    oracle_c06_c07(w, &so, out, false, true);
+    next(&so)
+}
+
+fn liq_alpha(rel: bool) -> Vec<Act> {
+    let mut al = StdAlpha::basic(&T2);
+    al.liquidators = vec!["liq", "bob"];
+    al.self_liq = true;
+    al.sizes = vec![SIZE_M, SIZE_L];
+    al.prices = vec![];
+    al.blocks = vec![15, 1200];
+    al.funding = false;
+    al.deposit = None;
+    al.withdraw = Some(3 * D);
+    if rel {
+        // oracle on either side of the 10% spread limit
+        al.rel_prices = vec![(10, 11), (1000, 1101), (10, 9), (1000, 899)];
+    } else {
+        al.rel_prices = vec![(10, 11), (10, 9)];
+    }
+    al.acts()
+}
+
+fn liq_seeds() -> Vec<Vec<Act>> {
+    vec![
+        vec![],
+        seed_liquidatable(),
+        seed_liquidatable_mirror(),
+        // moderately under water: partial liquidation territory
+        vec![
+            Act::open("alice", true, 25 * D, 10 * D),
+            Act::blk(15),
+            Act::open("bob", false, 35 * D, 1 * D),
+            Act::blk(1200),
+        ],
+        vec![
+            Act::open("alice", false, 20 * D, 10 * D),
+            Act::blk(15),
+            Act::open("bob", true, 45 * D, 1 * D),
+            Act::blk(1200),
+        ],
+    ]
+}
+
+pub fn run_c06(tier: Tier) -> i32 {
+    let mut run = Run::new("C06", tier.clone());
+    run.rule = "every sequence over the alphabet (liquidation by a third party, by another trader and by the owner; oracle moves on both sides of the 10% spread limit) up to the depth bound from seeds with healthy, slightly and deeply under-margined positions; non-trivial = a Liquidate that succeeded".into();
+    run.nontrivial = vec!["c06:full-liquidation".into(), "c06:partial-liquidation".into()];
+    let mk = |cw20: bool, mmr: u128, lf: u128, plr: u128| {
+        let mut c = cfg_with(cw20, false, plr);
+        c.imr = 100_000;
+        c.mmr = mmr;
+        c.liq_fee = lf;
+        c
+    };
+    let mut exps = vec![];
+    let alpha = liq_alpha(true);
+    match tier {
+        Tier::Quick => {
+            exps.push(Exp::new("liq", mk(true, 62_500, 25_000, 250_000), alpha.clone(), liq_seeds(), 3));
+            exps.push(Exp::new("liq", mk(false, 50_000, 50_000, 0), alpha.clone(), liq_seeds(), 3));
+        }
+        Tier::Thorough => {
+            for mmr in [50_000, 62_500] {
+                for lf in [0, 25_000, 50_000] {
+                    for plr in [0, 250_000, D] {
+                        exps.push(Exp::new("liq", mk(true, mmr, lf, plr), alpha.clone(), liq_seeds(), 3));
+                    }
+                }
+            }
+            exps.push(Exp::new("liq", mk(false, 62_500, 25_000, 250_000), alpha.clone(), liq_seeds(), 4));
+            exps.push(Exp::new("liq", mk(true, 62_500, 25_000, 250_000), alpha.clone(), liq_seeds(), 4));
+        }
+    }
+    run_exps(&mut run, step_c06, exps, |_| {});
+    run.finish()
+}
+
+pub fn run_c07(tier: Tier) -> i32 {
+    let mut run = Run::new("C07", tier.clone());
+    run.rule = "every sequence over the alphabet up to the depth bound from seeds with under-margined positions (incl. deeply negative equity and a drained vault); in every reached state every Liquidate(by, trader) of the alphabet is attempted; non-trivial = an attempt on a position whose reference ratio is below maintenance".into();
+    run.nontrivial = vec!["c07:liquidation-attempts-on-undermargined".into()];
+    run.assumptions.push("precondition 'not already outside the per-block price band' is made trivially true by fluctuation limit 0 in these worlds".into());
+    let mk = |cw20: bool, plr: u128, real: bool| {
+        let mut c = cfg_with(cw20, false, plr);
+        c.real_feed = real;
+        c
+    };
+    let mut seeds = liq_seeds();
+    seeds.push(seed_vault_drained());
+    seeds.push(vec![Act::blk(15), Act::open("alice", true, SIZE_L.0, SIZE_L.1), Act::open("bob", true, SIZE_L.0, SIZE_L.1)]);
+    let alpha = liq_alpha(false);
+    let mut exps = vec![];
+    match tier {
+        Tier::Quick => {
+            exps.push(Exp::new("liveness", mk(true, 0, false), alpha.clone(), seeds.clone(), 2));
+            exps.push(Exp::new("liveness", mk(false, 250_000, false), alpha.clone(), seeds.clone(), 2));
+            exps.push(Exp::new("liveness", mk(true, 0, true), alpha.clone(), seeds.clone(), 2));
+        }
+        Tier::Thorough => {
+            for cw20 in [true, false] {
+                for plr in [0, 250_000, D] {
+                    exps.push(Exp::new("liveness", mk(cw20, plr, false), alpha.clone(), seeds.clone(), 3));
+                }
+            }
+            exps.push(Exp::new("liveness", mk(true, 0, true), alpha.clone(), seeds.clone(), 3));
+            exps.push(Exp::new("liveness", mk(true, 250_000, true), alpha.clone(), seeds.clone(), 3));
+        }
+    }
+    run_exps(&mut run, step_c07, exps, |_| {});
+    run.finish()
+}
+
+// ------------------------------------------------------------------------------------------ C08
+fn step_c08(m: &EngModel, w: &mut World, s: &EngSt, a: &Act, out: &mut StepOut) -> Option<EngSt> {
+    let so = m.observe_step(w, s, a, out);
+    oracle_residue(w, &so, out);
+    if a.is_engine_tx() {
+        let n = so.outcome.dispatches;
+        if so.outcome.ok {
+            out.tag("c08:fault-free-ok-engine-tx");
+            out.tag(format!("c08:message-tree-size:{:02}", n));
+        }
+        for i in 0..n {
+            w.restore(&s.snap);
+            let o = apply_fault(w, a, Some(i));
+            out.executions += 1;
+            let injected = w.tap.log.borrow().iter().any(|d| d.injected);
+            if !injected {
+                continue; // the faulted run took a shorter path (e.g. different native funds candidate)
+            }
+            out.tag("c08:faulted-executions");
+            let what = w
+                .tap
+                .log
+                .borrow()
+                .iter()
+                .find(|d| d.injected)
+                .map(|d| {
+                    let k = d.msg.as_object().and_then(|o| o.keys().next().cloned()).unwrap_or_default();
+                    format!("{}", k)
+                })
+                .unwrap_or_default();
+            if o.ok {
+                out.viol(
+                    format!("C08:fault-swallowed:{}:{}", a.kind(), what),
+                    format!("{:?} returned Ok although dispatch {} ({}) was forced to fail", a, i, what),
+                );
+            }
+            if w.store.0.borrow().clone() != s.snap.kv {
+                out.viol(
+                    format!("C08:fault-left-state:{}:{}", a.kind(), what),
+                    format!("{:?} with dispatch {} ({}) failing left a different store (ok={})", a, i, what, o.ok),
+                );
+            }
+            let left = w.in_flight();
+            if !left.is_empty() {
+                out.viol(
+                    format!("C08:in-flight-residue-after-fault:{}", a.kind()),
+                    format!("{:?} with dispatch {} failing left {:?}", a, i, left),
+                );
+            }
+        }
+        w.restore(&so.post_snap);
+    }
+    next(&so)
+}
+
+pub fn run_c08(tier: Tier) -> i32 {
+    let mut run = Run::new("C08", tier.clone());
+    run.rule = "pre-states: every state of a BFS to the depth bound; for every pre-state and every engine operation of the alphabet the fault-free run records n dispatched messages, then the operation is re-executed n times from the same pre-state with dispatch i forced to fail; natural failures (empty wallet, closed vAMM, paused engine, slippage limit) are alphabet actions; non-trivial = a fault-injected re-execution".into();
+    run.nontrivial = vec!["c08:faulted-executions".into()];
+    let mut al = StdAlpha::basic(&T2);
+    al.sizes = vec![SIZE_M, SIZE_L];
+    al.prices = vec![8 * D];
+    al.blocks = vec![15, 3900];
+    let mut alpha = al.acts();
+    // natural failures
+    alpha.push(Act::Open { t: "owner".into(), v: 0, buy: true, margin: 5 * D, lev: 2 * D, limit: 0 }); // empty wallet
+    alpha.push(Act::Open { t: "alice".into(), v: 0, buy: true, margin: 5 * D, lev: 2 * D, limit: 1_000_000 * D }); // slippage
+    alpha.push(Act::SetOpen { by: "owner".into(), v: 0, open: false });
+    alpha.push(Act::SetOpen { by: "owner".into(), v: 0, open: true });
+    alpha.push(Act::SetPause { by: "owner".into(), pause: true });
+    alpha.push(Act::SetPause { by: "owner".into(), pause: false });
+    let seeds = vec![vec![], seed_liquidatable(), seed_funded(), seed_vault_drained()];
+    let mut exps = vec![];
+    match tier {
+        Tier::Quick => {
+            exps.push(Exp::new("fault sweep", cfg_with(true, true, 250_000), alpha.clone(), seeds.clone(), 2));
+            exps.push(Exp::new("fault sweep", cfg_with(false, true, 0), alpha.clone(), seeds.clone(), 2));
+        }
+        Tier::Thorough => {
+            for cw20 in [true, false] {
+                for plr in [0, 250_000] {
+                    exps.push(Exp::new("fault sweep", cfg_with(cw20, true, plr), alpha.clone(), seeds.clone(), 3));
+                }
+            }
+            exps.push(Exp::new("fault sweep", cfg_with(true, true, 250_000), alpha.clone(), seeds.clone(), 4));
+        }
+    }
+    run_exps(&mut run, step_c08, exps, |_| {});
+    run.finish()
+}
+
+// ------------------------------------------------------------------------------------------ C11
+fn step_c11(m: &EngModel, w: &mut World, s: &EngSt, a: &Act, out: &mut StepOut) -> Option<EngSt> {
+    let so = m.observe_step(w, s, a, out);
+    oracle_c11(w, &so, out);
+    next(&so)
+}
+
+pub fn run_c11(tier: Tier) -> i32 {
+    let mut run = Run::new("C11", tier.clone());
+    run.rule = "every sequence over the alphabet (time steps around the funding time: +15 s, +29 min, +31 min, +59 min 59 s, +60 min, +61 min; oracle prices giving premium <0, =0, >0; PayFunding by anyone; all position operations) up to the depth bound; non-trivial = a settlement that succeeded, or a charging event on a position with funding owed".into();
+    run.nontrivial = vec!["c11:settlement-ok".into(), "c11:increase-with-funding-owed".into(), "c11:reduce-with-funding-owed".into(), "c11:reversal-with-funding-owed".into(), "c11:deposit-with-funding-owed".into(), "c11:closeout-by-open-with-funding-owed".into(), "c11:settlement-rejected-early".into()];
+    let mut al = StdAlpha::basic(&T2);
+    al.blocks = vec![15, 1740, 1860, 3599, 3600, 3660];
+    al.liquidators = vec![];
+    let alpha = al.acts();
+    let seeds = vec![vec![], seed_funded(), seed_two_fundings(), seed_vault_drained()];
+    let mut exps = vec![];
+    match tier {
+        Tier::Quick => {
+            exps.push(Exp::new("funding", cfg_with(true, false, 0), alpha.clone(), seeds.clone(), 3));
+        }
+        Tier::Thorough => {
+            for cw20 in [true, false] {
+                for fees in [false, true] {
+                    exps.push(Exp::new("funding", cfg_with(cw20, fees, 0), alpha.clone(), seeds.clone(), 4));
+                }
+            }
+        }
+    }
+    run_exps(&mut run, step_c11, exps, |_| {});
+    run.finish()
+}
+
+// ------------------------------------------------------------------------------------------ C12
+fn step_c12(m: &EngModel, w: &mut World, s: &EngSt, a: &Act, out: &mut StepOut) -> Option<EngSt> {
+    let so = m.observe_step(w, s, a, out);
+    oracle_c12(w, &so, out);
+    next(&so)
+}
+
+pub fn run_c12(tier: Tier) -> i32 {
+    let mut run = Run::new("C12", tier.clone());
+    run.rule = "every sequence over the alphabet (notionals incl. one whose fee rounds to zero and non-round ones; reversal with and without remainder) up to the depth bound for several toll/spread settings; non-trivial = a successful open/close/other operation on which the fee transfers were checked".into();
+    run.nontrivial = vec!["c12:open-ok".into(), "c12:whole-close-ok".into(), "c12:non-trade-ok".into()];
+    let mut al = StdAlpha::basic(&T2);
+    al.sizes = vec![SIZE_S, SIZE_M, SIZE_L, (1, D), (33, 3 * D)];
+    al.prices = vec![8 * D];
+    al.blocks = vec![15, 3900];
+    let alpha = al.acts();
+    let mk = |cw20: bool, toll: u128, spread: u128| {
+        let mut c = cfg_with(cw20, false, 0);
+        c.toll = toll;
+        c.spread = spread;
+        c
+    };
+    let seeds = vec![vec![], seed_liquidatable(), seed_funded()];
+    let mut exps = vec![];
+    match tier {
+        Tier::Quick => {
+            exps.push(Exp::new("fees", mk(true, 3_000, 7_000), alpha.clone(), seeds.clone(), 3));
+            exps.push(Exp::new("fees", mk(false, 3_000, 7_000), alpha.clone(), vec![vec![]], 2));
+        }
+        Tier::Thorough => {
+            for (toll, spread) in [(3_000, 7_000), (0, 7_000), (3_000, 0), (D, 0), (500_000, 500_000)] {
+                exps.push(Exp::new("fees", mk(true, toll, spread), alpha.clone(), seeds.clone(), 3));
+            }
+            exps.push(Exp::new("fees", mk(true, 3_000, 7_000), alpha.clone(), seeds.clone(), 4));
+            exps.push(Exp::new("fees", mk(false, 3_000, 7_000), alpha.clone(), seeds.clone(), 4));
+        }
+    }
+    run_exps(&mut run, step_c12, exps, |_| {});
+    run.finish()
+}
+
+// ------------------------------------------------------------------------------------------ C16
+/// monitor: {h, u: traders whose own successful open/close in this block left a stored position,
+/// lq: a liquidation succeeded in this block, lt: traders named by a successful liquidation}
+fn step_c16(m: &EngModel, w: &mut World, s: &EngSt, a: &Act, out: &mut StepOut) -> Option<EngSt> {
+    let so = m.observe_step(w, s, a, out);
+    let mut mon = s.mon.clone();
+    let h = so.pre.height;
+    if mon["h"].as_u64() != Some(h) {
+        mon = json!({"h": h, "u": [], "lq": false, "lt": []});
+    }
+    let in_list = |v: &Value, t: &str| v.as_array().map(|a| a.iter().any(|x| x.as_str() == Some(t))).unwrap_or(false);
+    match a {
+        Act::Open { t, v, .. } | Act::Close { t, v, .. } => {
+            let restricted = in_list(&mon["u"], t) && mon["lq"].as_bool() == Some(true) && so.pre_t(*v, t).pos.is_some();
+            let cls = err_class(&so.outcome.err);
+            if restricted {
+                out.tag("c16:restricted-attempts");
+                if so.outcome.ok || !so.store_unchanged() {
+                    out.viol(
+                        format!("C16:second-action-after-liquidation-accepted:{}", a.kind()),
+                        format!("{:?} succeeded in block {} although {} already acted in it and a liquidation happened", a, h, t),
+                    );
+                }
+            } else if !in_list(&mon["u"], t) && !in_list(&mon["lt"], t) {
+                out.tag("c16:unrestricted-attempts");
+                if !so.outcome.ok && cls == "restriction-mode" {
+                    out.viol(
+                        format!("C16:untouched-trader-restricted:{}", a.kind()),
+                        format!("{:?} rejected with the restriction error in block {} although {} had not acted in it (monitor {})", a, h, t, mon),
+                    );
+                }
+            }
+            if so.outcome.ok {
+                let has = so.post_t(*v, t).pos.is_some();
+                let mut u: Vec<String> = mon["u"].as_array().unwrap().iter().filter_map(|x| x.as_str().map(|s| s.to_string())).collect();
+                u.retain(|x| x != t);
+                if has {
+                    u.push(t.clone());
+                }
+                u.sort();
+                mon["u"] = json!(u);
+            }
+        }
+        Act::Liq { t, v, .. } => {
+            if so.outcome.ok {
+                out.tag("c16:liquidations");
+                mon["lq"] = json!(true);
+                let mut lt: Vec<String> = mon["lt"].as_array().unwrap().iter().filter_map(|x| x.as_str().map(|s| s.to_string())).collect();
+                if !lt.contains(t) {
+                    lt.push(t.clone());
+                    lt.sort();
+                }
+                mon["lt"] = json!(lt);
+                if so.post_t(*v, t).pos.is_none() {
+                    let mut u: Vec<String> = mon["u"].as_array().unwrap().iter().filter_map(|x| x.as_str().map(|s| s.to_string())).collect();
+                    u.retain(|x| x != t);
+                    mon["u"] = json!(u);
+                }
+            }
+        }
+        Act::Blk { .. } => {
+            mon = json!({"h": so.post.height, "u": [], "lq": false, "lt": []});
+        }
+        _ => {}
+    }
+    Some(EngSt { snap: so.post_snap.clone(), mon })
+}
+
+pub fn run_c16(tier: Tier) -> i32 {
+    let mut run = Run::new("C16", tier.clone());
+    run.rule = "every ordering of opens, closes, liquidations and block boundaries (3 traders + liquidator) up to the depth bound from seeds holding a liquidatable position; monitor (who acted in this block, whether a liquidation happened) is part of the state; non-trivial = an attempt by a restricted trader, or an attempt by an untouched trader in a block with a liquidation".into();
+    run.nontrivial = vec!["c16:restricted-attempts".into(), "c16:liquidations".into()];
+    let mut al = StdAlpha::basic(&T3);
+    al.sizes = vec![SIZE_M];
+    al.deposit = None;
+    al.withdraw = None;
+    al.funding = false;
+    al.prices = vec![];
+    al.blocks = vec![15];
+    let alpha = al.acts();
+    let init = json!({"h": 0, "u": [], "lq": false, "lt": []});
+    let seeds = vec![seed_liquidatable(), seed_liquidatable_mirror(), vec![
+        Act::open("alice", true, 25 * D, 10 * D),
+        Act::open("carol", true, 25 * D, 10 * D),
+        Act::blk(15),
+        Act::open("bob", false, 35 * D, 1 * D),
+        Act::blk(1200),
+    ]];
+    let mut exps = vec![];
+    let mut push = |plr: u128, d: usize| {
+        let mut e = Exp::new("restriction mode", cfg_with(true, false, plr), alpha.clone(), seeds.clone(), d);
+        e.init_mon = init.clone();
+        exps.push(e);
+    };
+    match tier {
+        Tier::Quick => {
+            push(0, 4);
+            push(250_000, 4);
+        }
+        Tier::Thorough => {
+            push(0, 6);
+            push(250_000, 6);
+        }
+    }
+    run_exps(&mut run, step_c16, exps, |_| {});
+    run.finish()
+}
+
+// ------------------------------------------------------------------------------------------ C15
+fn isqrt(n: u128) -> u128 {
+    if n < 2 {
+        return n;
+    }
+    let mut x = (n as f64).sqrt() as u128;
+    while x * x > n {
+        x -= 1;
+    }
+    while (x + 1) * (x + 1) <= n {
+        x += 1;
+    }
+    x
+}
+
+/// quote amount whose swap_input moves the spot price by the factor f/1e6 (buy: f>1e6; sell: f<1e6)
+fn notional_for_move(q: u128, f: u128) -> u128 {
+    // price ~ q^2/k  =>  q' = q * sqrt(f)
+    let qn = q * isqrt(f * 1_000_000) / 1_000_000;
+    if qn > q {
+        qn - q
+    } else {
+        q - qn
+    }
+}
+
+fn alpha_c15(w: &mut World, s: &EngSt) -> Vec<Act> {
+    w.restore(&s.snap);
+    let q = w.vstate(0).quote_asset_reserve.u128();
+    let l = w.cfg.fluct;
+    let mut acts = vec![];
+    // trade sizes on either side of the band edge, plus a small one for drift
+    let moves_up = [1_000_000 + l - l / 50, 1_000_000 + l + l / 50, 1_000_000 + l / 2];
+    let moves_dn = [1_000_000 - l + l / 50, 1_000_000 - l - l / 50, 1_000_000 - l / 2];
+    for t in T2 {
+        for f in moves_up {
+            let n = notional_for_move(q, f);
+            acts.push(Act::Open { t: t.into(), v: 0, buy: true, margin: n / 2 + 1, lev: 2 * D, limit: 0 });
+        }
+        for f in moves_dn {
+            let n = notional_for_move(q, f);
+            acts.push(Act::Open { t: t.into(), v: 0, buy: false, margin: n / 2 + 1, lev: 2 * D, limit: 0 });
+        }
+        acts.push(Act::close(t));
+    }
+    acts.push(Act::blk(15));
+    acts
+}
+
+/// monitor: {h, p: spot price at the end of the previous block}
+fn step_c15(m: &EngModel, w: &mut World, s: &EngSt, a: &Act, out: &mut StepOut) -> Option<EngSt> {
+    let so = m.observe_step(w, s, a, out);
+    let cfg = &w.cfg;
+    let mut mon = s.mon.clone();
+    if mon["p"].is_null() {
+        mon = json!({"p": so.pre.vamms[0].spot as u64});
+    }
+    let p = mon["p"].as_u64().unwrap() as u128;
+    let l = cfg.fluct;
+    let upper = p * (D + l) / D;
+    let lower = p * (D - l) / D;
+    let inside = |x: u128| x >= lower && x <= upper;
+    let spot0 = so.pre.vamms[0].spot;
+    let spot1 = so.post.vamms[0].spot;
+    match a {
+        Act::Open { t, v, .. } if l > 0 => {
+            if so.outcome.ok {
+                let has = so.post_t(*v, t).pos.as_ref().map(|p| !p.size.is_zero()).unwrap_or(false);
+                if has {
+                    out.tag("c15:open-ok-with-position");
+                    if !inside(spot1) {
+                        out.viol(
+                            "C15:open-left-price-outside-band",
+                            format!("{:?}: spot {} -> {} outside [{}, {}] (previous block price {})", a, spot0, spot1, lower, upper, p),
+                        );
+                    }
+                    if !inside(spot0) {
+                        out.viol(
+                            "C15:open-accepted-while-outside-band",
+                            format!("{:?} accepted with spot {} already outside [{}, {}]", a, spot0, lower, upper),
+                        );
+                    }
+                }
+            } else if err_class(&so.outcome.err) == "swap-failure" {
+                out.tag("c15:open-refused-by-vamm");
+            }
+        }
+        Act::Close { t, v, .. } if l > 0 && cfg.plr < D => {
+            if so.outcome.ok {
+                let p0 = so.pre_t(*v, t).pos.clone().unwrap();
+                match &so.post_t(*v, t).pos {
+                    None => {
+                        out.tag("c15:whole-close");
+                        if !inside(spot1) {
+                            let long = size_of(&p0) > 0;
+                            out.viol(
+                                format!("C15:whole-close-left-price-outside-band:{}", if long { "long" } else { "short" }),
+                                format!("{:?}: whole position {} closed, spot {} -> {} outside [{}, {}] (previous block price {})", a, p0.size, spot0, spot1, lower, upper, p),
+                            );
+                        }
+                    }
+                    Some(p1) => {
+                        out.tag("c15:partial-close");
+                        let exp = p0.size.value.u128() * cfg.plr / D;
+                        let dec = p0.size.value.u128() as i128 - p1.size.value.u128() as i128;
+                        let vs = &so.pre.vamms[0].state;
+                        let tol = 2 + (vs.base_asset_reserve.u128() / vs.quote_asset_reserve.u128().max(1)) as i128;
+                        if (dec - exp as i128).abs() > tol || (size_of(&p0) > 0) != (size_of(p1) > 0) {
+                            out.viol(
+                                "C15:partial-close-fraction",
+                                format!("{:?}: size {} -> {} expected decrease {} (+-{})", a, p0.size, p1.size, exp, tol),
+                            );
+                        }
+                        // the whole close must indeed have left the band (else the whole position should have been closed)
+                        let dir = if size_of(&p0) > 0 { margined_perp::margined_vamm::Direction::AddToAmm } else { margined_perp::margined_vamm::Direction::RemoveFromAmm };
+                        let post = w.snapshot();
+                        *w.store.0.borrow_mut() = so.pre_snap.kv.clone();
+                        let qa = w.out_amount(0, dir.clone(), p0.size.value.u128());
+                        *w.store.0.borrow_mut() = post.kv;
+                        if let Ok(qa) = qa {
+                            let (q0, b0) = (vs.quote_asset_reserve.u128(), vs.base_asset_reserve.u128());
+                            let (q1, b1) = if size_of(&p0) > 0 { (q0 - qa, b0 + p0.size.value.u128()) } else { (q0 + qa, b0 - p0.size.value.u128()) };
+                            let price_after = q1 * D / b1;
+                            if inside(price_after) && inside(spot0) {
+                                out.viol(
+                                    "C15:partial-close-though-whole-close-stays-inside",
+                                    format!("{:?}: whole close would end at {} inside [{}, {}] yet only a fraction was closed", a, price_after, lower, upper),
+                                );
+                            }
+                        }
+                    }
+                }
+            }
+        }
+        Act::Blk { .. } => {
+            mon = json!({"p": spot0 as u64});
+        }
+        _ => {}
+    }
+    Some(EngSt { snap: so.post_snap.clone(), mon })
+}
+
+pub fn run_c15(tier: Tier) -> i32 {
+    let mut run = Run::new("C15", tier.clone());
+    run.rule = "every sequence over a state-dependent alphabet (trades sized to move the price by limit*0.98, limit*1.02 and limit/2 in both directions, closes, next block) up to the depth bound; the previous block's closing price is a monitor in the state; non-trivial = successful open leaving a position, whole or partial close under a non-zero limit".into();
+    run.nontrivial = vec!["c15:open-ok-with-position".into(), "c15:whole-close".into(), "c15:partial-close".into(), "c15:open-refused-by-vamm".into()];
+    let mk = |fl: u128, plr: u128| {
+        let mut c = cfg_with(true, false, plr);
+        c.fluct = fl;
+        c.imr = 100_000;
+        c.mmr = 50_000;
+        c
+    };
+    let mut exps = vec![];
+    let mut push = |c: Cfg, d: usize| {
+        exps.push(Exp { name: "price band".into(), cfg: c, traders: T2.to_vec(), seeds: vec![vec![]], alpha: Alpha::Dyn(alpha_c15), depth: d, init_mon: Value::Null });
+    };
+    match tier {
+        Tier::Quick => {
+            push(mk(50_000, 250_000), 4);
+            push(mk(20_000, D), 3);
+        }
+        Tier::Thorough => {
+            push(mk(50_000, 250_000), 6);
+            push(mk(20_000, 250_000), 5);
+            push(mk(50_000, D), 5);
+        }
+    }
+    run_exps(&mut run, step_c15, exps, |_| {});
+    run.finish()
+}
+
+// ------------------------------------------------------------------------------------------ C20 (caps part)
+pub fn step_c20(m: &EngModel, w: &mut World, s: &EngSt, a: &Act, out: &mut StepOut) -> Option<EngSt> {
+    let so = m.observe_step(w, s, a, out);
+    if let Act::Open { t, v, .. } = a {
+        if so.outcome.ok {
+            let vc = w.vcfg(*v);
+            let wl: bool = w.q(&w.engine, &margined_perp::margined_engine::QueryMsg::IsWhitelisted { address: t.clone() }).unwrap_or(false);
+            let p0 = so.pre_t(*v, t).pos.as_ref().map(|p| p.size.value.u128()).unwrap_or(0);
+            let p1 = so.post_t(*v, t).pos.as_ref().map(|p| p.size.value.u128()).unwrap_or(0);
+            let s0 = so.pre_t(*v, t).pos.as_ref().map(size_of).unwrap_or(0);
+            let s1 = so.post_t(*v, t).pos.as_ref().map(size_of).unwrap_or(0);
+            let increasing = p1 > p0 || (s0 != 0 && s1 != 0 && (s0 > 0) != (s1 > 0));
+            if increasing {
+                let (oc, hc) = (vc.open_interest_notional_cap.u128(), vc.base_asset_holding_cap.u128());
+                if wl {
+                    out.tag("c20:whitelisted-increase-ok");
+                } else {
+                    if oc > 0 || hc > 0 {
+                        out.tag("c20:capped-increase-ok");
+                    }
+                    if oc > 0 && so.post.oi_notional > oc && so.post.oi_notional > so.pre.oi_notional {
+                        out.viol("C20:open-interest-above-cap", format!("{:?}: open interest {} > cap {}", a, so.post.oi_notional, oc));
+                    }
+                    if hc > 0 && p1 > hc {
+                        out.viol("C20:holding-above-cap", format!("{:?}: |size| {} > cap {}", a, p1, hc));
+                    }
+                }
+            }
+        } else {
+            let cls = err_class(&so.outcome.err);
+            if cls == "swap-failure" || cls == "oi-cap" || cls == "holding-cap" {
+                let wl: bool = w.q(&w.engine, &margined_perp::margined_engine::QueryMsg::IsWhitelisted { address: t.clone() }).unwrap_or(false);
+                if so.outcome.err.contains("cap") {
+                    out.tag("c20:rejected-for-cap");
+                    if wl {
+                        out.viol("C20:whitelisted-trader-capped", format!("{:?} rejected: {}", a, so.outcome.err));
+                    }
+                }
+            }
+        }
+    }
+    next(&so)
+}
+
+// ------------------------------------------------------------------------------------------ C17 (engine level)
+fn with_limit(a: &Act, l: u128) -> Act {
+    match a.clone() {
+        Act::Open { t, v, buy, margin, lev, .. } => Act::Open { t, v, buy, margin, lev, limit: l },
+        Act::Close { t, v, .. } => Act::Close { t, v, limit: l },
+        Act::Liq { by, t, v, .. } => Act::Liq { by, t, v, limit: l },
+        x => x,
+    }
+}
+
+fn step_c17_eng(m: &EngModel, w: &mut World, s: &EngSt, a: &Act, out: &mut StepOut) -> Option<EngSt> {
+    let so = m.observe_step(w, s, a, out);
+    // which operations carry the caller's limit unchanged
+    let eligible = match a {
+        Act::Open { t, v, .. } => {
+            // opens, increases, reduces - not reversals (two swaps)
+            so.outcome.ok && so.swaps.len() == 1 && so.post_t(*v, t).pos.as_ref().map(|p| !p.size.is_zero()).unwrap_or(false)
+        }
+        Act::Close { t, v, .. } => so.outcome.ok && so.post_t(*v, t).pos.is_none() && so.swaps.len() == 1,
+        Act::Liq { t, v, .. } => so.outcome.ok && w.cfg.plr == 0 && so.post_t(*v, t).pos.is_none() && so.swaps.len() == 1,
+        _ => false,
+    };
+    if eligible {
+        let sw = &so.swaps[0];
+        let e = if sw.input_kind { sw.base } else { sw.quote };
+        let add = sw.direction == "AddToAmm";
+        // receiving side (base on swap_input add, quote on swap_output add) => ok iff e >= limit
+        let receiving = add;
+        out.tag(format!("c17:engine-limit-cases:{}", a.kind()));
+        for lim in [e.saturating_sub(1), e, e + 1] {
+            if lim == 0 {
+                continue;
+            }
+            w.restore(&s.snap);
+            let al = with_limit(a, lim);
+            let o = apply(w, &al);
+            out.executions += 1;
+            out.tag("c17:engine-limit-evaluations");
+            let should = if receiving { e >= lim } else { e <= lim };
+            if o.ok != should {
+                out.viol(
+                    format!("C17:engine-limit-not-honoured:{}:{}:{}", a.kind(), if receiving { "receiving" } else { "paying" }, if lim < e { "below" } else if lim == e { "at" } else { "above" }),
+                    format!("{:?} exchanges {} ; with limit {} ok={} expected ok={} ({})", a, e, lim, o.ok, should, o.err),
+                );
+            }
+            let now = w.store.0.borrow().clone();
+            if o.ok && now != so.post_snap.kv {
+                out.viol(format!("C17:engine-limit-changed-result:{}", a.kind()), format!("{:?} with limit {} reached a different store than without limit", a, lim));
+            }
+            if !o.ok && now != s.snap.kv {
+                out.viol(format!("C17:engine-limit-rejection-changed-store:{}", a.kind()), format!("{:?} with limit {}", a, lim));
+            }
+        }
+        w.restore(&so.post_snap);
+    }
+    // quotes equal executions through the engine too: the pre-state quote for the whole position is what a
+    // whole close / full liquidation exchanges
+    if let Act::Close { t, v, .. } | Act::Liq { t, v, .. } = a {
+        if so.outcome.ok && so.post_t(*v, t).pos.is_none() && so.swaps.len() == 1 && !so.swaps[0].input_kind {
+            let q = so.pre_t(*v, t).out_spot;
+            if q >= 0 && q as u128 != so.swaps[0].quote {
+                out.viol("C17:engine-quote-differs-from-execution", format!("{:?}: OutputAmount quoted {} but the swap exchanged {}", a, q, so.swaps[0].quote));
+            }
+        }
+    }
+    next(&so)
+}
+
+pub fn run_c17(tier: Tier) -> i32 {
+    let mut run = Run::new("C17", tier.clone());
+    run.rule = "vAMM level: in every state of a BFS over swaps, every (kind, direction, amount) of the alphabet is quoted, executed, and re-executed with limit in {e-1, e, e+1}; engine level: every successful single-swap OpenPosition / whole ClosePosition / full Liquidate of a BFS over the engine alphabet is re-executed with limit in {e-1, e, e+1} and compared with the unlimited run; non-trivial = a quote-vs-execution comparison or a limit evaluation".into();
+    run.nontrivial = vec!["c17:quote-vs-execution".into(), "c17:limit-evaluations".into(), "c17:engine-limit-evaluations".into()];
+    crate::props::vammprops::run_c17_vamm(&mut run, &tier);
+    let mut al = StdAlpha::basic(&T2);
+    al.sizes = vec![SIZE_S, SIZE_M, SIZE_L];
+    al.deposit = None;
+    al.withdraw = None;
+    al.prices = vec![];
+    al.funding = false;
+    al.blocks = vec![15, 1200];
+    let alpha = al.acts();
+    let seeds = vec![vec![], seed_liquidatable()];
+    let mut exps = vec![];
+    match tier {
+        Tier::Quick => {
+            exps.push(Exp::new("engine limits", cfg_with(true, false, 0), alpha.clone(), seeds.clone(), 3));
+        }
+        Tier::Thorough => {
+            exps.push(Exp::new("engine limits", cfg_with(true, true, 0), alpha.clone(), seeds.clone(), 4));
+            exps.push(Exp::new("engine limits", cfg_with(false, false, 0), alpha.clone(), seeds.clone(), 4));
+        }
+    }
+    run_exps(&mut run, step_c17_eng, exps, |_| {});
     run.finish()
 }
